@@ -19,6 +19,12 @@ Proved here (all for arbitrary nesting, arbitrary `Mem`, no size bound):
 * `temps_disjoint`      a temporary / loop register is always taken from the inactive set: it differs
                         from every register that is active (live in an enclosing operation) and stays
                         reserved until it is released
+* `temps_disjoint_code`  the same on the EMITTED commands: no command writes a register active at the start of
+                        its operation except `RegFuture.add` on its own handle
+* `balanced_epr`, `epr_forms_completed`, `epr_sequence_compiles`
+                        EPR operations, abstracted to the register events recorded from the real builder
+                        for every API form (Gen/EprRegs.lean): each form is balanced (kernel-decided) and
+                        `balanced` / `sequence_compiles` cover programs containing them
 * `f17_*`               regression witnesses of F17 on the fixed model (17 `if_ez`, 20 `loop_until`)
 -/
 import NetqasmVerif.Lemmas.Sdk
